@@ -349,12 +349,22 @@ def default_const_of(e):
     return found[0]
 
 
+FREE_FNS = set()      # free functions of config.rs (filled in by main)
+
+
 def names_in(e):
-    """variable names (single-segment lower-case paths) mentioned in an expression"""
+    """variable names (single-segment lower-case paths) mentioned in an expression; the callee of a call is
+    not a variable when it names a free function of the file (functions live in another namespace: a local
+    may well carry the same name, `let dns_resolve_method = dns_resolve_method(..)`)"""
     out = []
+    callees = set()
+    for s in subexprs(e):
+        if s and s[0] == 'call' and s[1] and s[1][0] == 'path' and isinstance(s[1][1], list) and len(s[1][1]) == 1 \
+                and s[1][1][0] in FREE_FNS:
+            callees.add(id(s[1]))
     for s in subexprs(e):
         if s and s[0] == 'path' and isinstance(s[1], list) and len(s[1]) == 1 and isinstance(s[1][0], str) \
-                and re.fullmatch(r'[a-z_][a-z0-9_]*', s[1][0]):
+                and re.fullmatch(r'[a-z_][a-z0-9_]*', s[1][0]) and id(s) not in callees:
             out.append(s[1][0])
     return out
 
@@ -635,6 +645,7 @@ def main():
     for it in walk_items(items):
         if it['kind'] == 'fn' and not it.get('is_test'):
             fns.setdefault(it['name'], it)
+    FREE_FNS.update(fns)
     lean_fns, fn_report = [], []
     for name in LAYER_FNS:
         if name not in fns:
